@@ -311,6 +311,40 @@ NOT_APPLICABLE = {
 
 PENDING = 'not claimed'
 
+GENERIC = (' Also decided over this property\'s files (engine/generic.py): no dropped failure result (E), 1-bit flags '
+           'stored normalised (B), boundaries / named constants / argument roles unchanged against the reference '
+           'profile (C, K, A), field widths agree (W), allocation results examined (N), "unset" sentinels survive '
+           'widening (S).')
+
+EXTRA = {
+    'C01': ' Further: bracket kinds of signatures nest (C01.9), wire-format limits inclusive everywhere (C01.10), '
+           'fixed-array block count matches the block handed out (C01.11), array end computed after alignment.',
+    'C02': ' Further: byteswap is given (header order, target order) in that order; limits inclusive (C02.8).',
+    'C04': ' Further: registry containers live as long as the bus (C04.8); shape analysis of the list primitives the '
+           'owner queue is edited with (C04.9).',
+    'C05': ' Further: routing state containers are never recreated (C05.7), list primitives keep the ring (C05.8), the '
+           'gate is told every party (C05.9).',
+    'C06': ' Further: every DBusConnection parameter of a gate caller is one of the gate\'s parties (C06.10); rule '
+           'destination / origin are compared through destination / sender accessors (C06.11).',
+    'C07': ' Further: the tokeniser succeeds only when the whole rule text was consumed (C07.2b); the disconnect sweep '
+           'removes only rules owned by or naming the departing connection (C07.4b); argN bytes compared over arg_lens[i].',
+    'C09': ' Further: in bus_dispatch_matches the gate is the last non-OOM refusal before staging (C09.1); pending-reply '
+           'list never recreated (C09.6); gate told every party (C09.7).',
+    'C10': ' Further: header edits use the message\'s byte order (C10.7); a held request\'s connection is used only '
+           'while connected (C10.8).',
+    'C11': ' Further: with descriptors pending the read budget is exactly what completes the current message (C11.6).',
+    'C12': ' Further: unknown-field stripping covers 11..255 with an unsigned code (C12.8).',
+    'C13': ' Further: a refused request holds no pending-reply slot (C13.7); counter containers never recreated (C13.6).',
+    'C14': ' Further: references taken are released on the failure paths that follow (C14.2g); a preallocated hash '
+           'entry is consumed or freed before it is forgotten (C14.9).',
+    'C15': ' Further: read budget while descriptors are pending (C15.8); descriptor passing marked negotiated only on '
+           'AGREE_UNIX_FD / when answering NEGOTIATE_UNIX_FD (C15.9).',
+    'C16': ' Further: struct and dict-entry brackets nest -- a closing bracket matches the innermost open one (C16.5).',
+    'C17': ' Further: the I/O path is released on every path on which it was acquired (C17.8).',
+    'C19': ' Further: pending activations survive reload (C19.6); a held request\'s connection is used only while '
+           'connected (C19.7); the helper\'s parser records each element\'s own type (C19.8).',
+}
+
 
 def main():
     props = [json.loads(l)['id'] for l in open(os.path.join(HERE, 'properties.jsonl'))]
@@ -328,7 +362,7 @@ def main():
             'evidence_file': 'evidence/%s.json' % pid,
             'replay_cmd_template': './check %s --replay {path}' % pid,
             'engine': 'dbusfacts+rules',
-            'level_claimed': {'category': c.get('level', 'other'), 'text': c['text'],
+            'level_claimed': {'category': c.get('level', 'other'), 'text': c['text'] + EXTRA.get(pid, '') + GENERIC,
                               'design_ref': c['design']},
             'level_note': c['note'],
             'technique': c['technique'],
